@@ -84,6 +84,9 @@ class InlineDefinedFuns:
         if is_definition_node(node):
             # we are about to inline the function into its own name
             return []
+        if is_recursive_defined_fun(node):
+            # inlining a function that refers to itself never ends
+            return []
         res = get_defined_fun(node)
         if res == node:
             return []
